@@ -303,8 +303,16 @@ pub fn run(seed: u64, shard: u64, nshards: u64, cases: u64, max_faults: usize, p
                     if q >= faults.len() {
                         break;
                     }
-                    let mut world = world0.fork();
-                    let fr = run_faulted(&mut world, &cfg, &dir, &format!("{id}-{q}"), &case.ops, &case.snaps, &faults[q].0, &faults[q].1, case.salt);
+                    // a run whose teosd lost a listening port to a concurrent process is simply repeated
+                    let mut attempt = 0;
+                    let fr = loop {
+                        attempt += 1;
+                        let mut world = world0.fork();
+                        let fr = run_faulted(&mut world, &cfg, &dir, &format!("{id}-{q}"), &case.ops, &case.snaps, &faults[q].0, &faults[q].1, case.salt);
+                        if attempt >= 3 || !fr.inconclusive.as_deref().map_or(false, |w| w.contains("listening port")) {
+                            break fr;
+                        }
+                    };
                     results.lock().unwrap().push((q, fr));
                 });
             }
